@@ -1,11 +1,14 @@
 (* Composition of the chain sender models: C08 (model/EvmSend.v: Send, getNonce, the nonce counter) with
    C10 (model/Cancel.v: CancelTx).
 
-   In model/Cancel.v the answer of TransactionByHash is an oracle value.  Here it is instantiated by the
-   history of the sender itself: a cancellation names (by position) one of the transactions this sender's
-   Send calls got accepted so far, and the node answers with that transaction -- its Nonce() is the nonce
-   it was submitted with (the fee fields and the pending flag stay free values).  Both calls run under
-   the client mutex (c.mtx), so a history is a list of operations in the order in which they hold it.
+   In model/Cancel.v the answer of TransactionByHash is an oracle value.  CancelTx takes ANY transaction hash
+   (it consults neither sentTxs nor the sender of the transaction found), so a cancellation of the combined
+   machine either names, by position, one of the transactions this sender's Send calls got accepted so far
+   ([k_target = Some i]: the node answers with that transaction, whose Nonce() is the nonce it was submitted
+   with; fee fields and pending flag stay free), or targets any other transaction the node knows
+   ([k_target = None]: the node answers with the free value [k_orig], any nonce, any sender).  Both calls run
+   under the client mutex (c.mtx: gen/Generated.v records the Lock / deferred Unlock in Send and CancelTx,
+   [calls_serialised_now]), so a history is a list of whole calls in the order in which they hold it.
 
    Frame fact of the combined machine: CancelTx never assigns c.nonce and never stores the monitor's
    lastConfirmedNonce, so a cancellation leaves the state of model/EvmSend.v unchanged.  It is tied to the
@@ -40,11 +43,27 @@ Proof. unfold cancel_frame_ok. destruct cancel_frame_now as [-> ->]. reflexivity
 Lemma sender_writes_now : c10_send_writes_nonce = 1%N /\ c10_getnonce_writes_nonce = 2%N.
 Proof. split; reflexivity. Qed.
 
-(* one CancelTx call: which accepted transaction it names, and the free answers *)
+(* Send and CancelTx each hold c.mtx from their first statement to their return (regenerated from evmclient.go on
+   every run; Cancel_proofs.cancel_serialised_now, EvmSend_proofs.send_serialised_now): the steps of the combined
+   machine are whole calls *)
+Definition calls_serialised : bool :=
+  c10_cancel_locks && c10_cancel_unlocks && c08_send_locks && c08_send_unlocks.
+Lemma calls_serialised_now : calls_serialised = true.
+Proof.
+  unfold calls_serialised. destruct CAP.cancel_serialised_now as [-> ->]. destruct ESP.send_serialised_now as [-> ->].
+  reflexivity.
+Qed.
+(* what the CancelTx step consults *)
+Definition machine_ok : bool := cancel_frame_ok && calls_serialised.
+Lemma machine_ok_now : machine_ok = true.
+Proof. unfold machine_ok. rewrite cancel_frame_ok_now, calls_serialised_now. reflexivity. Qed.
+
+(* one CancelTx call: its target and the free answers *)
 Record cancel_call := {
-  k_target : nat;             (* position among the transactions accepted so far, oldest first *)
+  k_target : option nat;      (* Some i: the i-th transaction accepted so far (oldest first); None: any other hash *)
+  k_orig : CA.orig;           (* k_target = None: the transaction the node returns for that hash (any nonce) *)
   k_pending : bool;           (* isPending as the node reports it *)
-  k_price : Z; k_fee : Z; k_tip : Z;   (* GasPrice(), GasFeeCap(), GasTipCap() of the target *)
+  k_price : Z; k_fee : Z; k_tip : Z;   (* k_target = Some i: GasPrice(), GasFeeCap(), GasTipCap() of the target *)
   k_tipans : CA.tipans; k_priceans : CA.priceans;
   k_sign : bool; k_submit : bool;
   k_havoc : ES.st             (* the sender's state after the call, were CancelTx to write it *) }.
@@ -60,14 +79,22 @@ Inductive cev :=
 | ESend (e : ES.tev)
 | ECancel (r : CA.cresult).
 
-(* TransactionByHash(h) for h = the hash Send returned for its k-th accepted transaction; a position
-   that names nothing is an unknown hash *)
+(* TransactionByHash(h): for h = the hash Send returned for its i-th accepted transaction the node answers with
+   that transaction (a position that names nothing is an unknown hash); for any other hash with what the node
+   knows under it *)
 Definition lookup_of (acc : list N) (k : cancel_call) : CA.lookup :=
-  match nth_error acc (k_target k) with
-  | Some n => CA.LFound (Some {| CA.o_nonce := Z.of_N n; CA.o_price := k_price k; CA.o_fee := k_fee k;
-                                 CA.o_tip := k_tip k |}) (k_pending k)
-  | None => CA.LErr true
+  match k_target k with
+  | Some i =>
+      match nth_error acc i with
+      | Some n => CA.LFound (Some {| CA.o_nonce := Z.of_N n; CA.o_price := k_price k; CA.o_fee := k_fee k;
+                                     CA.o_tip := k_tip k |}) (k_pending k)
+      | None => CA.LErr true
+      end
+  | None => CA.LFound (Some (k_orig k)) (k_pending k)
   end.
+
+(* every cancellation of the history names one of this sender's own accepted transactions *)
+Definition own_targets (ops : list cop) : Prop := forall k, In (OCancel k) ops -> k_target k <> None.
 
 Definition newly_accepted (e : ES.tev) : list N :=
   match e with ES.TSend _ (ES.Accepted n) => [n] | _ => [] end.
@@ -97,8 +124,9 @@ Fixpoint crun_gen (frame : bool) (cl : CA.client) (s : ES.st) (acc : list N) (op
       | _ => crun_gen frame cl s acc r
       end
   end.
-(* the machine as the source is now: the frame flag is the one computed from gen/Generated.v *)
-Definition crun (cl : CA.client) (ops : list cop) : list cev := crun_gen cancel_frame_ok cl ES.init [] ops.
+(* the machine as the source is now: the flag is the one computed from gen/Generated.v (frame of CancelTx, and
+   both calls under the mutex) *)
+Definition crun (cl : CA.client) (ops : list cop) : list cev := crun_gen machine_ok cl ES.init [] ops.
 
 Definition send_events (t : list cev) : list ES.tev :=
   flat_map (fun e => match e with ESend x => [x] | ECancel _ => [] end) t.
@@ -121,9 +149,10 @@ Qed.
 
 (* What the node sees of the Send calls of a history with cancellations is exactly what it sees of the
    same history without them: a cancellation (accepted, rejected, refused) consumes no nonce and leaves
-   the counter where it was.  Rests on [cancel_frame_now] (through [cancel_frame_ok_now]). *)
+   the counter where it was -- for ANY target, own or foreign.  Rests on [cancel_frame_now] and
+   [calls_serialised_now] (through [machine_ok_now]). *)
 Theorem cancel_transparent cl ops : send_events (crun cl ops) = ES.run ES.init (strip ops).
-Proof. unfold crun. rewrite cancel_frame_ok_now. apply send_events_crun_gen. Qed.
+Proof. unfold crun. rewrite machine_ok_now. apply send_events_crun_gen. Qed.
 
 Lemma send_events_app a b : send_events (a ++ b) = send_events a ++ send_events b.
 Proof. apply flat_map_app. Qed.
@@ -133,13 +162,17 @@ Proof. apply flat_map_app. Qed.
 Lemma accepted_cons e r : ES.accepted (e :: r) = newly_accepted e ++ ES.accepted r.
 Proof. destruct e as [p [| |n]| |]; reflexivity. Qed.
 
-Lemma reuse_from frame cl ops : forall s acc pre t b post,
+Lemma own_targets_tl o r : own_targets (o :: r) -> own_targets r.
+Proof. intros H k Hk. apply H. right. exact Hk. Qed.
+
+Lemma reuse_from frame cl ops : own_targets ops -> forall s acc pre t b post,
   crun_gen frame cl s acc ops = pre ++ ECancel (CA.CSubmit t b) :: post ->
   exists n, In n (acc ++ ES.accepted (send_events pre)) /\ CA.x_nonce t = Z.of_N n.
 Proof.
-  induction ops as [|o r IH]; intros s acc pre t b post H.
+  induction ops as [|o r IH]; intros Own s acc pre t b post H.
   - destruct pre; discriminate.
-  - assert (Hstep : forall so, send_op o = [so] ->
+  - pose proof (IH (own_targets_tl _ _ Own)) as IH'. clear IH. rename IH' into IH.
+    assert (Hstep : forall so, send_op o = [so] ->
               crun_gen frame cl s acc (o :: r) =
               ESend (snd (ES.step_with ES.get_nonce s so)) ::
               crun_gen frame cl (fst (ES.step_with ES.get_nonce s so))
@@ -153,7 +186,8 @@ Proof.
     cbn [crun_gen] in H. destruct pre as [|e0 pre'].
     + injection H as H _. apply CAP.shape in H.
       destruct H as (o & sug & Hl & _ & _ & _ & Hn & _). unfold lookup_of in Hl.
-      destruct (nth_error acc (k_target k)) as [n|] eqn:E; [|discriminate].
+      destruct (k_target k) as [i|] eqn:Et; [|exfalso; apply (Own k); [left; reflexivity|exact Et]].
+      destruct (nth_error acc i) as [n|] eqn:E; [|discriminate].
       injection Hl as <- _. exists n. split; [|exact Hn]. apply in_or_app. left. eapply nth_error_In, E.
     + injection H as <- H. apply IH in H. destruct H as (n & Hin & Hn). exists n. split; [|exact Hn].
       cbn [send_events flat_map app]. exact Hin.
@@ -172,18 +206,94 @@ Proof.
   destruct Hin as (o & sug & _ & _ & _ & _ & _ & H1 & H2 & H3 & H4 & H5 & _). repeat split; assumption.
 Qed.
 
-(* Every replacement that reaches the node carries the nonce of a transaction an earlier Send of this very
-   history got accepted (so it opens no new nonce), goes to the client's own address with value 0, no
-   data, gas 21000 and the client's chain id. *)
+(* When every cancellation names one of the sender's own accepted transactions: every replacement that reaches the
+   node carries the nonce of a transaction an earlier Send of this very history got accepted (so it opens no new
+   nonce), goes to the client's own address with value 0, no data, gas 21000 and the client's chain id.  (The
+   shape part holds for every target: [cancel_shape_any].) *)
 Theorem cancel_reuses_submitted_nonce cl ops pre t b post :
+  own_targets ops ->
   crun cl ops = pre ++ ECancel (CA.CSubmit t b) :: post ->
   (exists n, In n (ES.accepted (send_events pre)) /\ CA.x_nonce t = Z.of_N n) /\
   CA.x_chain t = CA.chain cl /\ CA.x_to t = CA.owner cl /\
   CA.x_value t = 0%Z /\ CA.x_data t = [] /\ CA.x_gas t = 21000%Z.
 Proof.
-  intros H. split; [exact (reuse_from _ cl ops ES.init [] pre t b post H)|].
-  apply (cancel_shape_from cancel_frame_ok cl ops ES.init [] t b). unfold crun in H. rewrite H.
+  intros Own H. split; [exact (reuse_from _ cl ops Own ES.init [] pre t b post H)|].
+  apply (cancel_shape_from machine_ok cl ops ES.init [] t b). unfold crun in H. rewrite H.
   apply in_or_app. right. left. reflexivity.
+Qed.
+
+(* for every target, own or foreign: the no-op shape of C10_shape, and the nonce of whatever the node returned *)
+Theorem cancel_shape_any cl ops pre t b post :
+  crun cl ops = pre ++ ECancel (CA.CSubmit t b) :: post ->
+  CA.x_chain t = CA.chain cl /\ CA.x_to t = CA.owner cl /\
+  CA.x_value t = 0%Z /\ CA.x_data t = [] /\ CA.x_gas t = 21000%Z.
+Proof.
+  intros H. apply (cancel_shape_from machine_ok cl ops ES.init [] t b). unfold crun in H. rewrite H.
+  apply in_or_app. right. left. reflexivity.
+Qed.
+
+(* ---- the in-flight window covers replacements of own transactions, and only those ----------------------- *)
+
+Lemma accepted_split l n : In n (ES.accepted l) -> exists a p b, l = a ++ ES.TSend p (ES.Accepted n) :: b.
+Proof.
+  induction l as [|e l IH]; [intros []|]. rewrite accepted_cons. intros H. apply in_app_or in H. destruct H as [H|H].
+  - destruct e as [p [| |m]| |]; cbn in H; try tauto. destruct H as [->|[]]. exists [], p, l. reflexivity.
+  - destruct (IH H) as (a & p & b & ->). exists (e :: a), p, b. reflexivity.
+Qed.
+
+Lemma confs_app a b : ES.confs (a ++ b) = ES.confs a ++ ES.confs b.
+Proof. induction a as [|e a IH]; [reflexivity|]. destruct e as [p r| |]; cbn; rewrite ?IH; reflexivity. Qed.
+
+Lemma max_list_app a b : ES.max_list (a ++ b) = N.max (ES.max_list a) (ES.max_list b).
+Proof.
+  induction a as [|x a IH]; cbn [app ES.max_list fold_right]; [rewrite N.max_0_l; reflexivity|].
+  fold (ES.max_list (a ++ b)). fold (ES.max_list a). rewrite IH, N.max_assoc. reflexivity.
+Qed.
+
+(* With own targets every transaction that reaches the node -- by Send or by CancelTx -- carries a nonce at most
+   1024 beyond the highest confirmed nonce the node had reported before it (C08_window extended to replacements). *)
+Theorem cancel_window cl ops pre t b post :
+  own_targets ops ->
+  crun cl ops = pre ++ ECancel (CA.CSubmit t b) :: post ->
+  (CA.x_nonce t <= Z.of_N (ES.max_list (ES.confs (send_events pre)) + 1024))%Z.
+Proof.
+  intros Own H. destruct (reuse_from _ cl ops Own ES.init [] pre t b post H) as (n & Hin & ->).
+  cbn [app] in Hin. destruct (accepted_split _ _ Hin) as (a & p & b0 & Ea).
+  pose proof (cancel_transparent cl ops) as T. unfold crun in H. unfold crun in T. rewrite H in T.
+  rewrite send_events_app, Ea, <- app_assoc in T. cbn [app] in T. symmetry in T.
+  pose proof (ESP.window ES.get_nonce (strip ops) a p (ES.Accepted n) n _ T eq_refl) as Hw.
+  rewrite Ea, confs_app, max_list_app.
+  pose proof (N.le_max_l (ES.max_list (ES.confs a)) (ES.max_list (ES.confs (ES.TSend p (ES.Accepted n) :: b0)))). lia.
+Qed.
+
+(* Without the premise both statements fail: a pending transaction of another sender (or of an earlier client on
+   the same key) with a nonce far beyond everything this sender submitted and beyond the window is replaced
+   under that nonce.  CancelTx has no sentTxs / sender test. *)
+Lemma foreign_target_refuted :
+  exists cl ops pre t post,
+    ES.wf_ops (strip ops) /\ ~ own_targets ops /\
+    crun cl ops = pre ++ ECancel (CA.CSubmit t true) :: post /\
+    (forall n, In n (ES.accepted (send_events pre)) -> CA.x_nonce t <> Z.of_N n) /\
+    (Z.of_N (ES.max_list (ES.confs (send_events pre)) + 1024) < CA.x_nonce t)%Z.
+Proof.
+  exists {| CA.owner := []; CA.chain := 1 |}.
+  exists [OSend {| ES.gas_given := true; ES.price_given := true |}
+                {| ES.pending := Some 5%N; ES.est_ok := true; ES.tip_ok := true; ES.price_ok := true;
+                   ES.sign_ok := true; ES.submit_ok := true |};
+          OCancel {| k_target := None;
+                     k_orig := {| CA.o_nonce := 5000; CA.o_price := 1; CA.o_fee := 1; CA.o_tip := 1 |};
+                     k_pending := true; k_price := 0; k_fee := 0; k_tip := 0;
+                     k_tipans := CA.TipOk 1; k_priceans := CA.PriceErr; k_sign := true; k_submit := true;
+                     k_havoc := ES.init |}].
+  exists [ESend (ES.TSend (Some 5%N) (ES.Accepted 5%N))].
+  exists {| CA.x_nonce := 5000; CA.x_chain := 1; CA.x_to := []; CA.x_value := 0; CA.x_data := []; CA.x_gas := 21000;
+            CA.x_tip := 1; CA.x_fee := 2 |}.
+  exists [].
+  split; [repeat constructor|]. split.
+  - intros Own. apply (Own _ (or_intror (or_introl eq_refl))). reflexivity.
+  - split; [vm_compute; reflexivity|]. split.
+    + intros n [<-|[]]. vm_compute. discriminate.
+    + vm_compute. reflexivity.
 Qed.
 
 (* ---- the C08 clauses hold across cancellations ------------------------------------------------------ *)
@@ -228,7 +338,7 @@ Proof.
   exists [OSend {| ES.gas_given := true; ES.price_given := true |}
                 {| ES.pending := Some 5%N; ES.est_ok := true; ES.tip_ok := true; ES.price_ok := true;
                    ES.sign_ok := true; ES.submit_ok := true |};
-          OCancel {| k_target := 0; k_pending := true; k_price := 1; k_fee := 1; k_tip := 1;
+          OCancel {| k_target := Some 0%nat; k_orig := {| CA.o_nonce := 0; CA.o_price := 0; CA.o_fee := 0; CA.o_tip := 0 |}; k_pending := true; k_price := 1; k_fee := 1; k_tip := 1;
                      k_tipans := CA.TipOk 1; k_priceans := CA.PriceErr; k_sign := true; k_submit := true;
                      k_havoc := ES.init |};
           OSend {| ES.gas_given := true; ES.price_given := true |}
@@ -245,7 +355,7 @@ Section Example.
        ES.sign_ok := true; ES.submit_ok := true |}.
   Let rq : ES.request := {| ES.gas_given := false; ES.price_given := false |}.
   Let kc (k : nat) : cancel_call :=
-    {| k_target := k; k_pending := true; k_price := 10; k_fee := 10; k_tip := 2;
+    {| k_target := Some k; k_orig := {| CA.o_nonce := 0; CA.o_price := 0; CA.o_fee := 0; CA.o_tip := 0 |}; k_pending := true; k_price := 10; k_fee := 10; k_tip := 2;
        k_tipans := CA.TipOk 3; k_priceans := CA.PriceErr; k_sign := true; k_submit := true;
        k_havoc := ES.init |}.
   (* two sends (nonces 5, 6), the first is cancelled twice, a third send gets nonce 7 *)
